@@ -18,7 +18,7 @@ type verifCrash struct{}
 // match, chooses between dying there (panic caught here; nothing more is
 // written) and going on. It reports whether the process "died" and at which event.
 func verifRunWithCrash(match func(ev string) bool, fn func()) (crashed bool, at string) {
-	n := 0
+	n, pagesWritten, headerWritten := 0, 0, 0
 	storage.VerifPoint = func(ev string, off uint64) {
 		if ev == "wal.synced" {
 			verifFSMarkSynced("data/db/wal")
@@ -29,7 +29,16 @@ func verifRunWithCrash(match func(ev string) bool, fn func()) (crashed bool, at 
 		n++
 		if verifChoice("crash-here", 2) == 1 {
 			at = fmt.Sprintf("%s#%d", ev, n)
+			// what had been written completely before the process died
+			verifTag("pages-written", fmt.Sprint(pagesWritten))
+			verifTag("header-written", fmt.Sprint(headerWritten))
 			panic(verifCrash{})
+		}
+		switch ev {
+		case "page.write":
+			pagesWritten++
+		case "header.write":
+			headerWritten++
 		}
 	}
 	defer func() {
